@@ -3,7 +3,7 @@ import concurrent.futures
 import json
 import os
 
-from . import common, rpucases, specgen, editgen, clirun
+from . import common, rpucases, specgen, editgen, clirun, madvrgen
 
 
 def hx(b):
@@ -161,6 +161,7 @@ def hdr10plus_cases(ctx, rng, work):
     scene's first frame (exact ST 2084 codes, clamped), override blocks of shot k on every frame of scene k"""
     from . import c19
     ncase = 24 if ctx.tier == "quick" else 400
+    mlines = []          # (model request line, the real CLI's answer, stderr tail) — compared after the loop
     for i in range(ncase):
         nsc = 1 + rng.below(5)
         lens = [1 + rng.below(6) for _ in range(nsc)]
@@ -192,10 +193,12 @@ def hdr10plus_cases(ctx, rng, work):
                "level6": {"max_display_mastering_luminance": 1000, "min_display_mastering_luminance": 1,
                           "max_content_light_level": 0, "max_frame_average_light_level": 0}, "shots": []}
         over = []
+        overc = []
         for sc in range(rng.below(nsc + 2)):
-            b, _, js = block_pair(rng, rng.choice([2, 2, 1]))
+            b, bc, js = block_pair(rng, rng.choice([2, 2, 1]))
             cfg["shots"].append({"start": 0, "duration": 0, "metadata_blocks": [js]})
             over.append(js)
+            overc.append("0:0:%s:" % bc)
         cp = os.path.join(d, "cfg.json")
         json.dump(cfg, open(cp, "w"))
         src = rng.choice(["histogram", "histogram99", "max-scl", "max-scl-luminance"])
@@ -204,6 +207,10 @@ def hdr10plus_cases(ctx, rng, work):
         ctx.evaluations += 1
         ctx.count("hdr10plus peak-source=%s" % src)
         case = {"op": "generate --hdr10plus-json", "input": json.dumps({"hdr10plus": hj["SceneInfoSummary"], "config": cfg, "peak_source": src})[:3000]}
+        # the Lean model of this path (Model/GenSources.lean hdr10plusConfig): same config, decoded source data
+        compact = "cm=%s&length=0&l6=1000:1:0:0" % ("40" if cm40 else "29") + ("&shots=" + "~".join(overc) if overc else "")
+        mlines.append(("c10.gensrc hdr10plus %s - - %s" % (compact, madvrgen.hdr10plus_source(hj, src)),
+                       impl_answer(rc, outp), se[-150:].decode(errors="replace")))
         if rc not in (0, 1):
             ctx.oracle_fail(dict(case, observed="exit %s %s" % (rc, se[-200:]), expected="exit 0 or an error", shape="crash"))
             continue
@@ -252,6 +259,294 @@ def hdr10plus_cases(ctx, rng, work):
                                                  expected="the override block of config shot %d: %s" % (sc, json.dumps(over[sc][name])[:200]), shape="precedence"))
                             break
             k += ln
+    compare_with_model(ctx, "generate --hdr10plus-json", mlines)
+
+
+def impl_answer(rc, outp):
+    """the real CLI's result in the model's answer format"""
+    if rc == 0 and os.path.exists(outp):
+        out = clirun.read_rpu_file(outp)
+        return "ok %d %s" % (len(out), ",".join(rpucases.unescape(o).hex() for o in out) if out else "-")
+    return "err" if rc == 1 else ("panic" if rc == 101 else "exit %s" % rc)
+
+
+def compare_with_model(ctx, op, mlines):
+    """mlines: (request line, real CLI's answer, stderr tail); every difference is a model/implementation disagreement"""
+    if not mlines:
+        return
+    mo, _, _ = common.run_lines_sharded(common.MODEL_EXE, [m[0] for m in mlines])
+    ctx.evaluations += len(mlines)
+    for (line, impl, se), m in zip(mlines, mo):
+        ctx.count("%s: model %s" % (op, m.split(" ")[0]))
+        if m != impl:
+            ctx.disagree(op, line[:5000], m[:300], impl[:300] + " | " + se)
+
+
+def gen_src_config(rng, nshots):
+    """a config for the HDR10+ / madVR paths: `nshots` shots (their start/duration are ignored by the tool) carrying
+    blocks of every level (L1 ones must be dropped by the merge) and frame edits at small offsets (duplicates included).
+    Returns (json, compact form, clean) — `clean`: all blocks legal for the CM version."""
+    j = {}
+    c = []
+    clean = rng.chance(6, 7)
+    LEGAL_P[0] = 4 if clean else 2
+    cm = rng.choice(["V40", "V40", "V29", None])
+    if cm:
+        j["cm_version"] = cm; c.append("cm=%s" % cm[1:])
+    prof = rng.choice([None, None, "5", "8.1", "8.4"])
+    if prof:
+        j["profile"] = prof; c.append("profile=%s" % prof.replace(".", ""))
+    if rng.chance(1, 5):
+        j["long_play_mode"] = True; c.append("lp=1")
+    if rng.chance(1, 4):
+        v = rng.choice(["V29", "V40"]); j["l1_avg_pq_cm_version"] = v; c.append("l1cm=%s" % v[1:])
+    if rng.chance(1, 4):
+        v = [rng.choice([0, 100, 8191]) for _ in range(4)]
+        j["level5"] = dict(zip(["active_area_left_offset", "active_area_right_offset", "active_area_top_offset", "active_area_bottom_offset"], v))
+        c.append("l5=" + ":".join(map(str, v)))
+    if rng.chance(5, 6):
+        v = [rng.choice([1000, 4000, 10000]), rng.choice([1, 50]), rng.choice([0, 0, 1, 999, 10000]), rng.choice([0, 0, 1, 400])]
+        j["level6"] = dict(zip(["max_display_mastering_luminance", "min_display_mastering_luminance",
+                                "max_content_light_level", "max_frame_average_light_level"], v))
+        c.append("l6=" + ":".join(map(str, v)))
+    v29only = clean and cm == "V29"
+    pick = (lambda opts: rng.choice([x for x in opts if x in (1, 2, 4, 255)] or [2])) if v29only else (lambda opts: rng.choice(opts))
+    if rng.chance(1, 3):
+        bl = [block_pair(rng, pick([1, 2, 3, 4, 8, 9, 11])) for _ in range(1 + rng.below(3))]
+        j["default_metadata_blocks"] = [x[2] for x in bl]
+        c.append("defaults=" + ";".join(x[1] for x in bl))
+    shots = []
+    cs = []
+    for s in range(nshots):
+        bl = [block_pair(rng, pick([1, 2, 2, 3, 4, 8, 10, 255])) for _ in range(rng.below(4))]
+        eds = []
+        ecs = []
+        for _ in range(rng.below(4)):
+            off = rng.choice([0, 0, 1, 2, 3, 7, 50])
+            eb = [block_pair(rng, pick([1, 2, 2, 3, 8])) for _ in range(1 + rng.below(2))]
+            eds.append({"edit_offset": off, "metadata_blocks": [x[2] for x in eb]})
+            ecs.append("%d@%s" % (off, "+".join(x[1] for x in eb)))
+        st, dur = rng.choice([(0, 0), (0, 0), (3, 5), (0, 1)])
+        shots.append({"start": st, "duration": dur, "metadata_blocks": [x[2] for x in bl], "frame_edits": eds})
+        cs.append("%d:%d:%s:%s" % (st, dur, ";".join(x[1] for x in bl), "^".join(ecs)))
+    if shots:
+        j["shots"] = shots
+        c.append("shots=" + "~".join(cs))
+    if rng.chance(1, 3):
+        ln = rng.choice([0, 1, 7, 1000])
+        j["length"] = ln; c.append("length=%d" % ln)
+    return j, ("&".join(c) if c else "-"), clean
+
+
+MADVR_KINDS = ["valid"] * 12 + ["unordered", "shifted-same-sum", "no-scenes", "end-beyond", "end-beyond", "not-tiling", "not-tiling", "truncated",
+                                "truncated", "flags0", "bad-targets", "bad-magic", "end-zero", "end-before-start", "tiny"]
+
+
+def not_l1(blocks):
+    return [b for b in blocks if list(b)[0] != "Level1"]
+
+
+def madvr_cases(ctx, rng, work):
+    """`generate --madvr-file`: synthesised madVR measurement files (vlib/madvrgen.py: versions 4/5/6, flags 1/2/3/7,
+    1..6 scenes tiling 1..40 frames, peak nits and MaxCLL/MaxFALL at and beyond their limits, empty / saturated
+    histograms; scenes in any order, a scene shifted by one frame with the lengths still adding up (accepted by the tool);
+    malformed: scene end beyond the frames, scenes not tiling the frames, truncated, flags 0, end word 0,
+    end before start, wrong number of per-frame targets, bad magic) x configs with 0..3 shots carrying non-L1 and L1
+    blocks and frame edits x --use-custom-targets. Three-way: the real CLI, the Lean model (`c10.gensrc madvr` on the
+    integers decoded independently by madvrgen.decode_bytes) and the direct oracle madvrgen.oracle (frame count, scene
+    cuts, per-frame L1, L6 MaxCLL/MaxFALL; config shot k's non-L1 blocks on the frames of scene k)."""
+    from . import c19
+    ncase = 60 if ctx.tier == "quick" else 1500
+    code_dec = lambda nits: c19.code_dec(c19.D(nits))
+    mlines = []
+    for i in range(ncase):
+        kind = rng.choice(MADVR_KINDS)
+        spec = madvrgen.gen_spec(rng, kind)
+        cfg, compact, clean = gen_src_config(rng, rng.choice([0, 1, 2, 3]))
+        custom = rng.chance(1, 2)
+        popt = rng.choice([None, None, None, "5", "8.4"])
+        lpopt = rng.choice([None, None, None, True, False])
+        d = os.path.join(work, "m%d" % i)
+        os.makedirs(d, exist_ok=True)
+        data = madvrgen.encode(spec)
+        mp = os.path.join(d, "m.bin")
+        open(mp, "wb").write(data)
+        cp = os.path.join(d, "cfg.json")
+        json.dump(cfg, open(cp, "w"))
+        outp = os.path.join(d, "out.bin")
+        a = ["generate", "-j", cp, "--madvr-file", mp, "-o", outp] + (["--use-custom-targets"] if custom else [])
+        if popt:
+            a += ["-p", popt]
+        if lpopt is not None:
+            a += ["--long-play-mode", "true" if lpopt else "false"]
+        rc, so, se = clirun.run(a)
+        ctx.evaluations += 1
+        ctx.count("madvr kind=%s" % kind)
+        ctx.count("madvr version=%d flags=%d%s" % (spec["version"], spec["flags"], " custom" if custom else ""))
+        impl = impl_answer(rc, outp)
+        set_ = se[-300:].decode(errors="replace")
+        case = {"op": "generate --madvr-file", "kind": kind, "madvr_hex": data.hex() if len(data) <= 40000 else data[:2000].hex() + "...",
+                "config": cfg, "args": " ".join(a[5:]),
+                "input": json.dumps({"kind": kind, "version": spec["version"], "flags": spec["flags"], "scenes": spec["scenes"],
+                                     "frames": len(spec["frames"]), "maxcll": spec["maxcll"], "maxfall": spec["maxfall"],
+                                     "truncate_to": spec.get("truncate_to"), "custom": custom})[:3000]}
+        # 1. no crash, whatever the file is
+        if rc not in (0, 1):
+            ctx.oracle_fail(dict(case, observed="exit %s %s" % (rc, set_), expected="exit 0 or an error message", shape="crash"))
+        # 2. the model, on the independently decoded integers (or the byte-level reader's own outcome)
+        dec = madvrgen.decode_bytes(data)
+        if dec["outcome"] == "model":
+            mlines.append(("c10.gensrc madvr %s %d %s %s %s" % (compact, 1 if custom else 0, popt.replace(".", "") if popt else "-",
+                                                                "-" if lpopt is None else ("1" if lpopt else "0"), madvrgen.model_source(dec)),
+                           impl, set_))
+        else:
+            ctx.count("madvr byte-level reader outcome=%s" % dec["outcome"])
+            if impl != dec["outcome"]:
+                ctx.disagree("generate --madvr-file (byte-level reader)", case["input"], dec["outcome"] + ": " + dec["why"], impl + " | " + set_)
+        # 3. the direct oracle
+        if "truncate_to" in spec or kind in ("bad-magic", "bad-targets"):
+            if rc == 0:
+                ctx.oracle_fail(dict(case, observed="exit 0", expected="an error: the file is not a complete measurement file", shape="malformed-accepted"))
+            continue
+        want = madvrgen.oracle(spec, cfg, custom, code_dec)
+        if want in ("err", "malformed"):
+            if rc == 0:
+                ctx.oracle_fail(dict(case, observed="exit 0, %s" % impl[:40], expected="an error (%s)" % kind, shape="malformed-accepted"))
+            continue
+        if want["l6"] is not None and max(want["l6"]) > 10000:
+            if rc == 0:
+                ctx.oracle_fail(dict(case, observed="exit 0", expected="an error: MaxCLL/MaxFALL above 10000", shape="l6-range"))
+            continue
+        if rc != 0:
+            if clean:
+                ctx.count("madvr well-formed file, legal config, rejected")
+                ctx.oracle_fail(dict(case, observed="exit %s %s" % (rc, set_), expected="%d RPUs" % len(want["frames"]), shape="wellformed-rejected"))
+            continue
+        out = clirun.read_rpu_file(outp)
+        ctx.nontriv("madvr%d" % i)
+        if len(out) != len(want["frames"]):
+            ctx.oracle_fail(dict(case, observed="%d frames" % len(out), expected="%d frames" % len(want["frames"]), shape="frame-count"))
+            continue
+        pj, _, _ = common.run_lines(common.LIBCASE, ["nalu.json 7c01" + o.hex() for o in out])
+        lp = lpopt if lpopt is not None else cfg.get("long_play_mode", False)
+        # frame -> (scene index, offset)
+        where = []
+        for k, (st, e1, pk) in enumerate(spec["scenes"]):
+            where += [(k, j) for j in range(e1 - st)]
+        for f, o in enumerate(pj):
+            if not o.startswith("ok {"):
+                ctx.oracle_fail(dict(case, frame=f, observed="generated RPU does not parse", expected="parses", shape="unparsable"))
+                break
+            jj = json.loads(o[3:])
+            cut, l1w, fuzzy = want["frames"][f]
+            cut = 1 if (lp or cut) else 0
+            if jj["vdr_dm_data"]["scene_refresh_flag"] != cut:
+                ctx.oracle_fail(dict(case, frame=f, observed="scene flag %s" % jj["vdr_dm_data"]["scene_refresh_flag"],
+                                     expected="%d (1 exactly on the first frame of each madVR scene)" % cut, shape="profile-or-scene-cut"))
+                break
+            have = frame_blocks(jj)
+            l1 = (have.get(("Level1", None)) or [None])[0]
+            if l1w is None:
+                ctx.count("madvr no scene: frame without source L1")
+            elif fuzzy:
+                ctx.count("madvr L1 within 1e-6 of a rounding tie (not judged)")
+            else:
+                ctx.count("madvr L1 checked")
+                if l1 is None or (l1["min_pq"], l1["max_pq"], l1["avg_pq"]) != l1w:
+                    ctx.oracle_fail(dict(case, frame=f, observed="L1 %s" % json.dumps(l1), expected="L1 min/max/avg %s (%s)" % (
+                        l1w, "frame target, scene average" if (custom and spec["flags"] == 3) else "scene peak, scene average"), shape="madvr-l1"))
+                    break
+            k, j = where[f] if f < len(where) else (None, None)
+            sh = (cfg.get("shots") or [])[k] if (k is not None and k < len(cfg.get("shots") or [])) else None
+            eff = {"metadata_blocks": not_l1(sh.get("metadata_blocks") or []),
+                   "frame_edits": [{"edit_offset": e["edit_offset"], "metadata_blocks": not_l1(e["metadata_blocks"])}
+                                   for e in sh.get("frame_edits") or []]} if sh else {"metadata_blocks": [], "frame_edits": []}
+            exp = precedence_expect(dict(cfg, default_metadata_blocks=not_l1(cfg.get("default_metadata_blocks") or [])
+                                         if l1w is not None else cfg.get("default_metadata_blocks") or []), eff, j if j is not None else f)
+            l6 = (have.get(("Level6", None)) or [None])[0]
+            if want["l6"] is not None and not any(nm == "Level6" for (nm, _) in (exp or {})) and exp is not None:
+                ctx.count("madvr L6 checked")
+                if l6 is None or (l6["max_content_light_level"], l6["max_frame_average_light_level"]) != want["l6"]:
+                    ctx.oracle_fail(dict(case, frame=f, observed="L6 %s" % json.dumps(l6), expected="MaxCLL/MaxFALL %s (config value, else the file's when 0)" % (want["l6"],), shape="madvr-l6"))
+                    break
+            bad = False
+            for (name, key), (src, wantb) in (exp or {}).items():
+                if cfg.get("cm_version", "V40") == "V29" and name not in ("Level1", "Level2", "Level4", "Level5", "Level6", "Level255"):
+                    continue
+                if name == "Level1":
+                    continue
+                got = have.get((name, key), [])
+                ctx.count("madvr precedence-checked=%s" % src)
+                if not any(all(wantb.get(kk) == vv for kk, vv in g.items()) for g in got):
+                    ctx.oracle_fail(dict(case, frame=f, observed="%s key %s in frame: %s" % (name, key, json.dumps(got)[:300]),
+                                         expected="the %s block %s of config shot %s" % (src, json.dumps(wantb)[:300], k), shape="precedence"))
+                    bad = True
+                    break
+            if bad:
+                break
+    compare_with_model(ctx, "generate --madvr-file", mlines)
+
+
+def hdr10plus_malformed_cases(ctx, rng, work):
+    """HDR10+ JSON whose summary arrays do not fit the frames (empty / decreasing `SceneFirstFrameIndex`, too few
+    `SceneFrameNumbers`, a first frame without a peak value, scene lengths not adding up): the real CLI vs the model;
+    direct oracle: no crash, and an error when the scene lengths do not add up to the frame count"""
+    ncase = 16 if ctx.tier == "quick" else 200
+    mlines = []
+    for i in range(ncase):
+        nfr = 1 + rng.below(8)
+        kind = rng.choice(["empty-firsts", "decreasing", "short-lengths", "no-peak", "bad-sum", "duplicate-firsts", "beyond", "fine"])
+        frames = [{"LuminanceParameters": {"AverageRGB": rng.below(20000),
+                                           "LuminanceDistributions": {"DistributionIndex": [1, 5, 10, 25, 50, 75, 90, 95, 99],
+                                                                      "DistributionValues": sorted(rng.below(100000) for _ in range(9))},
+                                           "MaxScl": [rng.below(100000) for _ in range(3)]},
+                   "NumberOfWindows": 1, "TargetedSystemDisplayMaximumLuminance": 0,
+                   "SceneFrameIndex": 0, "SceneId": 0, "SequenceFrameIndex": f} for f in range(nfr)]
+        cutp = sorted(set([0] + [rng.below(nfr) for _ in range(rng.below(3))]))
+        first0 = rng.choice([0, 3])
+        firsts = [first0 + x for x in cutp]
+        lens = [b - a for a, b in zip(cutp, cutp[1:] + [nfr])]
+        src = rng.choice(["histogram", "histogram99", "max-scl", "max-scl-luminance"])
+        if kind == "empty-firsts":
+            firsts = []
+        elif kind == "decreasing":
+            firsts = [first0 + 2] + [first0 + x for x in cutp]
+        elif kind == "short-lengths":
+            lens = lens[:-1]
+        elif kind == "no-peak":
+            fm = frames[rng.choice(cutp)]["LuminanceParameters"]
+            fm["LuminanceDistributions"]["DistributionValues"] = []
+            fm["MaxScl"] = rng.choice([[], [1, 2], [1, 2, 3, 4]])
+        elif kind == "bad-sum":
+            lens[rng.below(len(lens))] += rng.choice([1, 2, 7])
+        elif kind == "duplicate-firsts":
+            firsts = firsts + [firsts[-1]]
+        elif kind == "beyond":
+            firsts = firsts + [first0 + nfr + rng.below(3)]
+            lens = lens + [1]
+        hj = {"JSONInfo": {"HDR10plusProfile": "A", "Version": "1.0"}, "SceneInfo": frames,
+              "SceneInfoSummary": {"SceneFirstFrameIndex": firsts, "SceneFrameNumbers": lens},
+              "ToolInfo": {"Tool": "verif", "Version": "0"}}
+        cfg, compact, clean = gen_src_config(rng, rng.choice([0, 1, 2]))
+        d = os.path.join(work, "hm%d" % i)
+        os.makedirs(d, exist_ok=True)
+        hp = os.path.join(d, "h.json")
+        json.dump(hj, open(hp, "w"))
+        cp = os.path.join(d, "cfg.json")
+        json.dump(cfg, open(cp, "w"))
+        outp = os.path.join(d, "out.bin")
+        rc, so, se = clirun.run(["generate", "-j", cp, "--hdr10plus-json", hp, "--hdr10plus-peak-source", src, "-o", outp])
+        ctx.evaluations += 1
+        ctx.count("hdr10plus malformed kind=%s" % kind)
+        set_ = se[-300:].decode(errors="replace")
+        case = {"op": "generate --hdr10plus-json", "kind": kind, "config": cfg, "hdr10plus": hj if nfr <= 3 else hj["SceneInfoSummary"],
+                "input": json.dumps({"kind": kind, "summary": hj["SceneInfoSummary"], "frames": nfr, "peak_source": src})}
+        if rc not in (0, 1):
+            ctx.oracle_fail(dict(case, observed="exit %s %s" % (rc, set_), expected="exit 0 or an error message", shape="crash"))
+        if kind == "bad-sum" and rc == 0:
+            ctx.oracle_fail(dict(case, observed="exit 0", expected="an error: scene lengths do not add up to the frame count", shape="malformed-accepted"))
+        mlines.append(("c10.gensrc hdr10plus %s - - %s" % (compact, madvrgen.hdr10plus_source(hj, src)), impl_answer(rc, outp), set_))
+    compare_with_model(ctx, "generate --hdr10plus-json (malformed)", mlines)
 
 
 def round_half_even_free(x):
@@ -271,10 +566,22 @@ def run(ctx):
                 "(everywhere in long-play mode); non-trivial = generation succeeded with >= 1 shot block or edit; distinct by config hash")
     ctx.rule += ("; plus `--hdr10plus-json` runs on synthesised HDR10+ JSON (1..5 scenes, every peak source) with override shots: "
                  "frame count, scene cuts at the scene starts, per-scene L1 from the first frame (exact ST 2084 codes, clamped; "
-                 "max-scl source), override blocks on every frame of their scene — direct oracles only")
-    ctx.assumptions = ["the HDR10+ JSON reader and the madVR measurement reader are third-party parsers feeding the same shot list; the HDR10+ "
-                       "path is driven with synthesised JSON (direct oracles), the madVR path only through C17's sample "
-                       "(no measurement-file generator: mutant M106 in mutants/b1/triage.md lives there)"]
+                 "max-scl source), override blocks on every frame of their scene — direct oracles, and the real CLI's RPU list "
+                 "against the Lean model of the path (Model/GenSources.lean hdr10plusConfig via `c10.gensrc hdr10plus`, fed with "
+                 "the PQ codes decoded independently in vlib/madvrgen.py); a malformed HDR10+ family (summary arrays that do "
+                 "not fit the frames) against the model; plus `--madvr-file` runs on synthesised madVR measurement files "
+                 "(vlib/madvrgen.py: versions 4/5/6, flags 1/2/3/7, 1..6 scenes tiling 1..40 frames, peak nits / MaxCLL / MaxFALL "
+                 "at and beyond their limits, empty and saturated histograms, and malformed files: scene beyond the frames, "
+                 "scenes not tiling, truncated, flags 0, end word 0, end before start, wrong target count, bad magic) x configs "
+                 "with 0..3 shots carrying L1 and non-L1 blocks and frame edits x --use-custom-targets: the real CLI against "
+                 "the Lean model (`c10.gensrc madvr`) and against the direct oracle madvrgen.oracle (frame count, scene cuts, "
+                 "per-frame L1 from the 60-digit ST 2084 evaluation and the exact histogram average, L6 MaxCLL/MaxFALL fill-in, "
+                 "config shot k's non-L1 blocks on scene k)")
+    ctx.assumptions = ["the HDR10+ JSON reader and the madVR measurement reader are third-party parsers; their byte/JSON level is not "
+                       "modelled in Lean: vlib/madvrgen.py decodes the files independently (same f64 operation order as the Rust "
+                       "code) and feeds the model the integers (PQ codes before clamping, scene words, header words); the f64 "
+                       "parts (nits -> PQ, histogram average, round) are inputs of the model (parameter PqCode in "
+                       "Model/GenSources.lean) and are checked by the direct oracle only"]
     ctx.build_and_audit(need_cli=True)
     rng = ctx.rng.fork("c10")
     n = 500 if ctx.tier == "quick" else 8000
@@ -291,6 +598,8 @@ def run(ctx):
         with concurrent.futures.ThreadPoolExecutor(max_workers=14) as ex:
             res = list(ex.map(run_case, cases))
         hdr10plus_cases(ctx, rng.fork("hdr10plus"), work)
+        hdr10plus_malformed_cases(ctx, rng.fork("hdr10plus-malformed"), work)
+        madvr_cases(ctx, rng.fork("madvr"), work)
     finally:
         clirun.cleanup(work)
     mo, _, _ = common.run_lines_sharded(common.MODEL_EXE, lines)
